@@ -51,12 +51,26 @@ def main():
             opts["translate"] = tr
         if opts.pop("_tokenizer", False):
             opts["tokenizer"] = tok
+        base_cls = None
+        which = opts.pop("_exprtype", None)
+        if which:
+            # an application-defined expression type built with functools.partial (the way load: is built):
+            # the bound values are part of the configuration
+            from functools import partial
+            from chameleon.tales import ProxyExpr
+
+            class SiteTemplate(PageTemplate):
+                expression_types = dict(PageTemplate.expression_types, fmt=partial(ProxyExpr, "__" + which))
+            base_cls = SiteTemplate
+            opts["extra_builtins"] = {"__upper": str.upper, "__lower": str.lower, "__title": str.title}
         for k in ("boolean_attributes", "implicit_i18n_attributes"):
             if k in opts and opts[k] is not None:
                 opts[k] = set(opts[k])
         try:
             cls = {"PageTemplate": PageTemplate, "PageTextTemplate": PageTextTemplate, "PageTemplateFile": PageTemplateFile}[case["cls"]]
             arg = case["filename"] if case["cls"] == "PageTemplateFile" else case["body"]
+            if base_cls is not None and case["cls"] == "PageTemplate":
+                cls = base_cls
             t = cls(arg, **opts)
             out = t(**case.get("kwargs", {}))
             print(json.dumps({"out": out}), flush=True)
